@@ -17,6 +17,7 @@ static char v_line[V_LINE_MAX];
 
 // Watchdog for harnesses whose operations are short: every line read re-arms a wall-clock alarm, so an operation that
 // never returns (a loop that a change made endless) stops the run with a message instead of hanging the check.
+#include <errno.h>
 #include <signal.h>
 #include <unistd.h>
 static unsigned v_watchdog_secs = 0;
@@ -206,6 +207,7 @@ v_alloc_refuse(VAlloc* a)
   const long k = a->n_requests++;
   if (k == a->fail_at || (a->fail_from >= 0 && k >= a->fail_from)) {
     ++a->n_refused;
+    errno = ENOMEM;   // as malloc, calloc, realloc and posix_memalign do when they fail
     return true;
   }
   return false;
